@@ -24,10 +24,23 @@ go test -vet=off -count=1 -run 'TestZZDemo$' "./$DEMODIR/" > "$OUT/demo_without.
 git stash pop -q
 echo "demo_with_change_exit=$WITH (want !=0) suite_with_change_exit=$SUITE (want 0) demo_without_change_exit=$WITHOUT (want 0)"
 # 4. run the check against /repo with the change applied
+#    TRY_VIA=mirror: /repo is busy (a sweep reads it): run a copy of /verif against the scratch
+#    worktree instead (VERIF_REPO), demo set aside; TRY_LOG=<file>: reuse the log of such a run
+if [ "${TRY_VIA:-}" = mirror ]; then
+  if [ -n "${TRY_LOG:-}" ]; then
+    cp "$TRY_LOG" "$OUT/check_$TIER.log"; CHK=$(grep -o 'exit=[0-9]*' "$OUT/check_$TIER.log" | tail -1 | cut -d= -f2)
+  else
+    rsync -a --delete --exclude .git --exclude .scratch /verif/ /root/mv/
+    mv "$WT/$DEMO" /tmp/zz_demo_aside.go
+    (cd /root/mv && VERIF_REPO="$WT" timeout 3000 ./check "$PROP" "$TIER" --timeout 2400 "$@" > "$OUT/check_$TIER.log" 2>&1); CHK=$?
+    mv /tmp/zz_demo_aside.go "$WT/$DEMO"
+  fi
+else
 cd /repo && git apply "$OUT/patch.diff" || { echo "patch does not apply to /repo"; exit 2; }
 cd /verif && timeout 3000 ./check "$PROP" "$TIER" --timeout 2400 "$@" > "$OUT/check_$TIER.log" 2>&1; CHK=$?
 git -C /repo checkout -- .
 git -C /repo status --short | grep -v '^??' | head -3
+fi
 NV=$(grep -c '^VIOLATION' "$OUT/check_$TIER.log")
 echo "check $PROP $TIER exit=$CHK violations=$NV"
 grep -m3 "^  assert\|^  panic\|^  hang\|^  spin\|^  deadlock" "$OUT/check_$TIER.log" | cut -c1-200
